@@ -44,6 +44,7 @@ type zsReq struct {
 	KeepAlive string `json:"keep_alive,omitempty"` // "": nil (server default), "0", "10ms", "5m", "-1"
 	Hold      int    `json:"hold"`                 // scheduling points while the request uses the runner
 	Impatient bool   `json:"impatient,omitempty"`  // a second thread may cancel the request at any time
+	MMap      string `json:"use_mmap,omitempty"`   // "true"/"false": explicit use_mmap, a freshly allocated *bool per request as Options.FromMap makes it
 }
 
 type zsScenario struct {
@@ -388,6 +389,10 @@ func (x *zsExec) client(c *zsClient) {
 	if c.req.NumGPU != nil {
 		opts.NumGPU = *c.req.NumGPU
 	}
+	if c.req.MMap != "" {
+		v := c.req.MMap == "true"
+		opts.UseMMap = &v
+	}
 	c.submitAt = mcrt.Steps()
 	c.submitTime = mcrt.VirtualNow()
 	c.liveAtSubmit = x.live()
@@ -493,7 +498,8 @@ func (x *zsExec) checkGrant(c *zsClient, srv *zsSrv, opts api.Options) {
 				continue
 			}
 			compatible := s.numParallel > 0 && s.opts.NumCtx/s.numParallel == want && (opts.NumGPU < 0 || s.opts.NumGPU == opts.NumGPU)
-			if compatible {
+			sameMMap := (s.opts.UseMMap == nil) == (opts.UseMMap == nil) && (opts.UseMMap == nil || *s.opts.UseMMap == *opts.UseMMap)
+			if compatible && sameMMap {
 				mcrt.Fail("C11: request %d was compatible with loaded runner %s but a new runner %s was started", c.i, s.name, srv.name)
 			}
 		}
@@ -715,6 +721,7 @@ func zsScenarios(thorough bool) []*zsScenario {
 	add(&zsScenario{Name: "three-models-max2", GPUs: metal1, Env: map[string]string{"OLLAMA_MAX_LOADED_MODELS": "2"}, Reqs: []zsReq{{Model: "A", Hold: 1}, {Model: "B", Hold: 1}, {Model: "C", Hold: 1}}})
 	add(&zsScenario{Name: "fit-tight", GPUs: metal1, FitTight: true, VRAM: map[string]uint64{"A": 1 << 30, "B": 1 << 30}, Env: map[string]string{"OLLAMA_NUM_PARALLEL": "1"}, Reqs: []zsReq{{Model: "A", Hold: 1}, {Model: "B", Hold: 1}}})
 	add(&zsScenario{Name: "seq-reuse", Seq: true, GPUs: metal1, Reqs: []zsReq{{Model: "A", Hold: 1}, {Model: "A", Hold: 1}, {Model: "A", NumCtx: 4096, Hold: 1}}})
+	add(&zsScenario{Name: "seq-reuse-mmap", Seq: true, GPUs: metal1, Reqs: []zsReq{{Model: "A", MMap: "false", Hold: 1}, {Model: "A", MMap: "false", Hold: 1}, {Model: "A", MMap: "true", Hold: 1}}})
 	add(&zsScenario{Name: "seq-evict-order", Seq: true, GPUs: metal1, Env: map[string]string{"OLLAMA_MAX_LOADED_MODELS": "2"}, Reqs: []zsReq{{Model: "B", KeepAlive: "10m", Hold: 1}, {Model: "A", KeepAlive: "20m", Hold: 1}, {Model: "C", Hold: 1}}})
 	add(&zsScenario{Name: "forever-keepalive", GPUs: metal1, Env: map[string]string{"OLLAMA_MAX_LOADED_MODELS": "1"}, Reqs: []zsReq{{Model: "A", KeepAlive: "-1", Hold: 1}, {Model: "B", Hold: 1}}})
 	add(&zsScenario{Name: "cpu-two-models", GPUs: metal1, Reqs: []zsReq{{Model: "A", NumGPU: zsInt(0), Hold: 1}, {Model: "B", NumGPU: zsInt(0), Hold: 1}}})
